@@ -104,15 +104,8 @@ func (j *jsonSubProto) Unpack(m erpc.Message) error {
 		}
 	}
 
-	// read body
-	m.SetBodyCodec(byte(gjson.Get(s, "bodyCodec").Int()))
-	body := gjson.Get(s, "body").String()
-	bodyBytes, err := m.XferPipe().OnUnpack(goutil.StringToBytes(body))
-	if err != nil {
-		return err
-	}
-
-	// read other
+	// read other (before the body: a message whose body is refused is still known by
+	// its sequence number and type, so that a reply completes its call)
 	m.SetSeq(int32(gjson.Get(s, "seq").Int()))
 	m.SetMtype(byte(gjson.Get(s, "mtype").Int()))
 	m.SetServiceMethod(gjson.Get(s, "serviceMethod").String())
@@ -120,6 +113,14 @@ func (j *jsonSubProto) Unpack(m erpc.Message) error {
 	m.Status(true).DecodeQuery(goutil.StringToBytes(stat))
 	meta := gjson.Get(s, "meta").String()
 	m.Meta().ParseBytes(goutil.StringToBytes(meta))
+
+	// read body
+	m.SetBodyCodec(byte(gjson.Get(s, "bodyCodec").Int()))
+	body := gjson.Get(s, "body").String()
+	bodyBytes, err := m.XferPipe().OnUnpack(goutil.StringToBytes(body))
+	if err != nil {
+		return err
+	}
 
 	// unmarshal new body
 	err = m.UnmarshalBody(bodyBytes)
